@@ -152,4 +152,70 @@ theorem ANIResult.new_error_iff (d p : ℝ) (t : Option ℝ) (s : Bool) :
              · rintro ⟨e, he⟩; cases he
              · rintro ⟨e, he⟩; cases he
 
+/-! ### the point estimate is the root of the noise-free equation; ordering of the interval roots -/
+
+/-- `(1 - p*)^k = c` for `p* = 1 - c^(1/k)`: the point estimate solves `f1 = f2 = 0` without the `z·sqrt(var)` term -/
+theorem point_estimate_is_root {k : ℕ} (hk : 1 ≤ k) {c : ℝ} (hc : 0 ≤ c) :
+    (1 - (1 - aniC c k)) ^ k = c := by
+  have hk' : (k : ℝ) ≠ 0 := by
+    have : (0 : ℝ) < k := by exact_mod_cast hk
+    exact ne_of_gt this
+  have : (1 - (1 - aniC c k)) = c ^ ((1 : ℝ) / k) := by unfold aniC; ring
+  rw [this, ← Real.rpow_natCast, ← Real.rpow_mul hc, one_div, inv_mul_cancel₀ hk', Real.rpow_one]
+
+/-- Root ordering, float-free.  `h` = the noise-free function (`(1 - p)^k - c`), `s ≥ 0` = `sqrt(var_direct)`,
+    `z ≥ 0` = `probit(1 - alpha/2)`; `f1 = h + z·s`, `f2 = h - z·s` strictly decreasing on `S`.  Then a root of `f2`
+    is ≤ the root of `h` ≤ a root of `f1`: exactly the hypothesis `hord` of `ci_brackets_if_present`
+    (`dist_low = sol2`, `dist_high = sol1`). -/
+theorem roots_bracket_point {S : Set ℝ} {h s : ℝ → ℝ} {z p sol1 sol2 : ℝ}
+    (hz : 0 ≤ z) (hs : ∀ x ∈ S, 0 ≤ s x)
+    (h1 : StrictAntiOn (fun x => h x + z * s x) S) (h2 : StrictAntiOn (fun x => h x - z * s x) S)
+    (hp : p ∈ S) (hs1 : sol1 ∈ S) (hs2 : sol2 ∈ S)
+    (rp : h p = 0) (r1 : h sol1 + z * s sol1 = 0) (r2 : h sol2 - z * s sol2 = 0) :
+    sol2 ≤ p ∧ p ≤ sol1 := by
+  have hzs : 0 ≤ z * s p := mul_nonneg hz (hs p hp)
+  constructor
+  · by_contra hlt
+    push_neg at hlt
+    have := h2 hp hs2 hlt
+    simp only at this
+    rw [r2, rp] at this
+    linarith
+  · by_contra hlt
+    push_neg at hlt
+    have := h1 hs1 hp hlt
+    simp only at this
+    rw [r1, rp] at this
+    linarith
+
+/-- a higher confidence level (larger `z`) can only widen the interval, under the same monotonicity hypotheses -/
+theorem wider_confidence_wider_interval {S : Set ℝ} {h s : ℝ → ℝ} {z z' a a' : ℝ}
+    (hzz : z ≤ z') (hs : ∀ x ∈ S, 0 ≤ s x)
+    (h1 : StrictAntiOn (fun x => h x + z' * s x) S)
+    (ha : a ∈ S) (ha' : a' ∈ S)
+    (r : h a + z * s a = 0) (r' : h a' + z' * s a' = 0) : a ≤ a' := by
+  by_contra hlt
+  have hlt := not_le.mp hlt
+  have := h1 ha' ha hlt
+  simp only at this
+  rw [r'] at this
+  have : (z' - z) * s a < 0 := by nlinarith
+  have h0 : 0 ≤ (z' - z) * s a := mul_nonneg (by linarith) (hs a ha)
+  linarith
+
+/-- `z_alpha = probit(1 - alpha/2)` with `alpha = 1 - confidence`: the argument is `(1 + confidence)/2`, increasing
+    in the confidence and in (1/2, 1) for confidence in (0, 1); with a monotone `probit` vanishing at 1/2 this makes
+    `z_alpha ≥ 0` and monotone in the confidence level -/
+theorem probit_argument (conf : ℝ) : 1 - (1 - conf) / 2 = (1 + conf) / 2 := by ring
+
+theorem z_alpha_nonneg_mono {probit : ℝ → ℝ} (hm : MonotoneOn probit (Set.Icc (1 / 2) 1)) (h0 : probit (1 / 2) = 0)
+    {c c' : ℝ} (hc0 : 0 ≤ c) (hcc : c ≤ c') (hc1 : c' ≤ 1) :
+    0 ≤ probit (1 - (1 - c) / 2) ∧ probit (1 - (1 - c) / 2) ≤ probit (1 - (1 - c') / 2) := by
+  have m1 : (1 - (1 - c) / 2) ∈ Set.Icc (1 / 2 : ℝ) 1 := ⟨by linarith, by linarith⟩
+  have m2 : (1 - (1 - c') / 2) ∈ Set.Icc (1 / 2 : ℝ) 1 := ⟨by linarith, by linarith⟩
+  have m0 : (1 / 2 : ℝ) ∈ Set.Icc (1 / 2 : ℝ) 1 := ⟨le_refl _, by norm_num⟩
+  constructor
+  · rw [← h0]; exact hm m0 m1 (by linarith)
+  · exact hm m1 m2 (by linarith)
+
 end Sm.Ani
